@@ -1,6 +1,6 @@
 (* Dispatcher: one protocol line in, one observation line out.  This is the function the
    extracted driver (ocaml/driver.ml) and the in-Coq cross-check (Eval vm_compute) both run. *)
-From OA Require Import Bytes Proto ErrorCodes DevicePoll DeviceKinds FormUrlencoded Base64 Sha256 Requests Pkce AuthUrl ReqSpec.
+From OA Require Import Bytes Proto ErrorCodes DevicePoll DeviceKinds FormUrlencoded Base64 Sha256 Requests Pkce AuthUrl ReqSpec Secrets.
 From Coq Require Import ZArith.
 
 Definition run_c14 (ws : list bytes) : bytes :=
@@ -388,6 +388,97 @@ Definition monitor_authurl (ws : list bytes) : bytes :=
   | _, _ => bad_case
   end.
 
+(* ---------------------------------------------------------------- C04 / C12 / C20 *)
+
+Definition unreservedb (c : ascii) : bool :=
+  (is_alnum c || Ascii.eqb c "-" || Ascii.eqb c "." || Ascii.eqb c "_" || Ascii.eqb c "~")%bool.
+
+Definition run_pkce (ws : list bytes) : bytes :=
+  match ws with
+  | [m; v] =>
+      match untok_bytes v with
+      | None => bad_case
+      | Some v =>
+          let r := if is_kw "s256" m then from_verifier_sha256 v else from_verifier_plain v in
+          match r with
+          | PPanic => s2b "PANIC"
+          | POk c => unwords [s2b "ok"; tok_bytes (ch_value c); tok_bytes (ch_method c);
+                              tok_bytes (ch_value c); tok_bytes (ch_method c); tok_bytes v]
+          end
+      end
+  | _ => bad_case
+  end.
+
+Definition ceil43 (n : N) : N := ((4 * n + 2) / 3)%N.
+
+Definition monitor_pkcerand (ws : list bytes) : bytes :=
+  let (cw, ow) := split_bar ws in
+  match cw with
+  | [n] =>
+      match N_of_dec n with
+      | None => bad_case
+      | Some n =>
+          match ow with
+          | [p] => if is_kw "PANIC" p
+                   then (if num_bytes_ok n then s2b "fail panic-on-legal-n" else s2b "ok")
+                   else bad_case
+          | [_ok; ver; chal; uc; um; bv] =>
+              match untok_bytes ver, untok_bytes chal, untok_bytes uc, untok_bytes um, untok_bytes bv with
+              | Some ver, Some chal, Some uc, Some um, Some bv =>
+                  if negb (num_bytes_ok n) then s2b "fail no-refusal-of-illegal-n"
+                  else if negb (forallb unreservedb ver) then s2b "fail alphabet"
+                  else if negb (N.eqb (N.of_nat (length ver)) (ceil43 n)) then s2b "fail length"
+                  else match b64_url_nopad_decode ver with
+                       | None => s2b "fail not-canonical-base64url"
+                       | Some raw =>
+                           if negb (N.eqb (N.of_nat (length raw)) n) then s2b "fail byte-count"
+                           else match from_verifier_sha256 ver with
+                                | PPanic => s2b "fail verifier-length"
+                                | POk c =>
+                                    if negb (bytes_eqb (ch_value c) chal) then s2b "fail challenge-mismatch"
+                                    else if negb (bytes_eqb uc chal && bytes_eqb bv ver) then s2b "fail flow-values"
+                                    else if negb (server_check um uc bv) then s2b "fail server-check"
+                                    else s2b "ok"
+                                end
+                       end
+              | _, _, _, _, _ => bad_case
+              end
+          | _ => bad_case
+          end
+      end
+  | _ => bad_case
+  end.
+
+Definition monitor_csrf (ws : list bytes) : bytes :=
+  let (cw, ow) := split_bar ws in
+  match cw, ow with
+  | [n], [_ok; t] =>
+      match N_of_dec n, untok_bytes t with
+      | Some n, Some t =>
+          if negb (forallb b64_url_charb t) then s2b "fail alphabet"
+          else if negb (N.eqb (N.of_nat (length t)) (ceil43 n)) then s2b "fail length"
+          else match b64_url_nopad_decode t with
+               | None => s2b "fail not-canonical-base64url"
+               | Some raw => if N.eqb (N.of_nat (length raw)) n then s2b "ok" else s2b "fail byte-count"
+               end
+      | _, _ => bad_case
+      end
+  | [n], [p] => if is_kw "PANIC" p then s2b "fail panic" else bad_case
+  | _, _ => bad_case
+  end.
+
+Definition run_seceq (ws : list bytes) : bytes :=
+  match ws with
+  | [_ty; a; b] =>
+      match untok_bytes a, untok_bytes b with
+      | Some a, Some b =>
+          if secret_eq a b then s2b "eq=1 sym=1 hash=1 content=" ++ tok_bool (bytes_eqb a b)
+          else s2b "eq=0 sym=0 content=" ++ tok_bool (bytes_eqb a b)
+      | _, _ => bad_case
+      end
+  | _ => bad_case
+  end.
+
 Definition run_line (line : bytes) : bytes :=
   match words line with
   | p :: ws =>
@@ -396,6 +487,20 @@ Definition run_line (line : bytes) : bytes :=
       else if is_kw "REQ" p then run_req ws
       else if is_kw "AUTHURL" p then run_authurl ws
       else if is_kw "REQM1" p then monitor_req true ws
+      else if is_kw "PKCE" p then run_pkce ws
+      else if is_kw "PKCERAND" p then
+        match ws with
+        | [n] => match N_of_dec n with
+                 | Some n => if num_bytes_ok n then s2b "ok" else s2b "PANIC"
+                 | None => bad_case
+                 end
+        | _ => bad_case
+        end
+      else if is_kw "PKCERANDM" p then monitor_pkcerand ws
+      else if is_kw "CSRF" p then s2b "ok"
+      else if is_kw "CSRFM" p then monitor_csrf ws
+      else if is_kw "SECEQ" p then run_seceq ws
+      else if is_kw "ECHOOK" p then s2b "ok"
       else if is_kw "REQM2" p then monitor_req false ws
       else if is_kw "AUTHURLM" p then monitor_authurl ws
       else if is_kw "POLLM" p then monitor_poll ws
